@@ -666,7 +666,9 @@ impl<S: EntryIoStream, E: Entry> Receiver<S, E> {
         let span = tracing::span!(tracing::Level::TRACE, "metrics background queue", sink=?self.inner.name);
         let _enter = span.enter();
         let mut waker_tracker = WakerTracker::new(flush_queue_receiver);
-        let inner = self.inner.clone();
+        // Don't keep a second `Arc` to `inner` alive here: the "no appenders left" check below relies on
+        // `Arc::get_mut`, which only succeeds once this thread holds the last reference.
+        let queue_capacity = self.inner.queue.capacity();
 
         loop {
             metrique_writer_core::__verif_point!("bq.w_outer_start");
@@ -677,7 +679,7 @@ impl<S: EntryIoStream, E: Entry> Receiver<S, E> {
                 let (status, entry_count) = self.drain_until_deadline(next_flush);
 
                 waker_tracker.handle_waiting_wakers(
-                    || inner.queue.capacity(),
+                    || queue_capacity,
                     || self.flush_stream(),
                     status,
                     entry_count,
